@@ -34,6 +34,7 @@ P = {
          "Duration multiplication with a non-constant operand and every reflect.Value.Convert of a possible number in the root package must be "
          "dominated by comparison facts on the same operand that imply the destination range, with constants evaluated exactly after the rounding "
          "of the comparison's type (math.MaxInt64 as float64 is 2^63, so the bound must be strict) and at least one true-edge fact for floats (NaN). "
+         "Integer seconds reach a Duration through integer arithmetic only (no detour through float64, which would round above 2^53). "
          "Thorough tier repeats the rules for GOARCH=386. Two known findings (reflect fall-through for unsupported kinds; int(idx) on 32-bit). "
          "That an in-range number is stored exactly, and strconv/time parsing, are not decided.",
          TRUST + "strconv and time.ParseDuration trusted.",
@@ -79,7 +80,7 @@ P = {
          "not decided; the class tables of handler functions and the inverse-pair table are frozen in the checker (unknown handlers are undecided).",
          "§3 C06"),
  "C07": (True,
-         "compiler BCE residual + custom linear bounds prover (Fourier-Motzkin over dominating facts, phi induction, store forwarding, call-site facts) + panic/assertion/goroutine rules + reflect precondition analysis (kind guards, addressability facts with parameter contracts, type agreement) on SSA",
+         "compiler BCE residual + custom linear bounds prover (Fourier-Motzkin over dominating facts, phi induction, store forwarding, call-site facts) + panic/assertion/goroutine rules + reflect precondition analysis (kind guards, interprocedural kind facts for parameters, addressability facts with parameter contracts, type agreement) on SSA",
          "Decides, for the current tree, that every program point that can panic is guarded on every path: the index/slice operations the compiler's "
          "sound prove pass cannot discharge (its -d=ssa/check_bce report, ~45 sites) are each proved in bounds by the checker's linear prover or carry "
          "a reasoned, count-capped exception (lexer/parser protocol); every idx-derived allocation is bounded; every explicit panic is dead or behind "
@@ -87,9 +88,13 @@ P = {
          "parseSplice always drains the lexer and the lexer always closes its channels; IsNil is only called on nil-able kinds; every reflect "
          "Set*/Addr receiver is addressable (by construction, under CanSet/CanAddr, or by a parameter contract checked at every call site: a "
          "six-fact abstract domain over expression normal forms); every value a primitive converter returns for a destination type was "
-         "converted to it and map keys to the key type. One known finding (uncapped API index). Totality over all inputs is a runtime claim; "
-         "decided is the guarding of each panic point. Third-party decoders, stack depth, parser-loop termination and the remaining reflect "
-         "kind preconditions (Elem, NumField, Len, Index, MapKeys, ...) are not decided.",
+         "converted to it and map keys to the key type; every kind-restricted reflect call (MapKeys, MapIndex, Len, Index, Elem, NumField, Field, "
+         "Type.Key/Elem, ...) on a parameter of an unexported function is allowed for every kind its callers can hand over (interprocedural kind "
+         "facts from the dispatches dominating each call site, related to the argument through the chase helpers; six reasoned hand-over "
+         "assumptions printed on every run); every evaluator of a dynamic value returns a value or an error, never neither; the index given to a "
+         "setter is capped by MaxIdx. Totality over all inputs is a runtime claim; decided is the guarding of each panic point. Third-party "
+         "decoders, stack depth, parser-loop termination, kind preconditions of locals outside the dispatch rules and the convertibility "
+         "precondition of reflect Convert are not decided.",
          TRUST + "The Go compiler's prove pass is trusted for the bounds checks it eliminates.",
          "§3 C07, appendix B E3"),
  "C08": (True,
@@ -168,7 +173,8 @@ P = {
          "— is established by every writer: at each call of fields.set/setAt/append and each direct store into fields.d/.a the stored value's context "
          "(recovered from the producing cpy call, a following SetContext, the normalize call or the literal) pairs with the storage key and with the "
          "owner of the receiving fields; in-place element moves are followed by renumbering of every moved element; every SetContext implementation "
-         "stores its argument reachably on every path; Parent() and path() read the same two fields. Since the invariant can only be broken at a "
+         "stores its argument reachably on every path; Parent() and path() read the same two fields; the text of an index field is the decimal "
+         "rendering of its own integer. Since the invariant can only be broken at a "
          "store or a move, it holds after any operation history. FlattenedKeys' set equality and the diff partition are not decided.",
          TRUST,
          "§3 C15"),
@@ -203,7 +209,8 @@ P = {
          "static def-use flow of option parameters + dominator/path rules on SSA (custom analyzer)",
          "Decides, for every function of packages flag and cfgutil on the current tree, that no ...ucfg.Option parameter is dropped on the way to "
          "NewFrom/Merge/Unpack or the collector's option field, that Collector.err is write-once and returned first, that FlagValue.Set feeds "
-         "the collector on every path, and that the key=value loader treats empty values and bare keys as stated. These are necessary structural "
+         "the collector on every path, and that the key=value loader treats empty values and bare keys as stated (an argument is ignored only when "
+         "its raw value part is empty — never after the value was parsed, so null/[]/{} still override). These are necessary structural "
          "clauses of C19 that hold for all argument sequences at once; equality with a sequence of merges (a value-level fact) is not decided.",
          TRUST + "Does not cover user-supplied FileLoader functions.",
          "§3 C19"),
